@@ -1,7 +1,8 @@
 import importlib.util
 import os
 
-_spec = importlib.util.spec_from_file_location("_opsgen", os.path.join(os.path.dirname(__file__), "_opsgen.py"))
+_spec = importlib.util.spec_from_file_location("_chain", os.path.join(os.path.dirname(__file__), "_chain.py"))
 _m = importlib.util.module_from_spec(_spec)
 _spec.loader.exec_module(_m)
-pre_build = _m.pre_build
+pre_build = _m.pre_build_both
+pre_checks = _m.pre_checks_repr
